@@ -109,6 +109,10 @@ func buildLogger(c *Case, out *rw) zerolog.Logger {
 		}
 	case "ctxcount":
 		l = l.With().CallerWithSkipFrameCount(2 + c.J).Logger()
+	case "ctxcount=global":
+		// the explicit count happens to equal the global when the logger is built; the global moves afterwards
+		zerolog.CallerSkipFrameCount = 2 + c.J
+		l = l.With().CallerWithSkipFrameCount(2 + c.J).Logger()
 	case "ctx2":
 		l = l.With().Caller().Caller().Logger()
 	case "event+ctx":
@@ -123,12 +127,12 @@ func buildLogger(c *Case, out *rw) zerolog.Logger {
 // run executes the case and returns "" or a failure description.
 func run(c *Case, shared *zerolog.Logger, out *rw) string {
 	si := sites[c.Site]
+	oldGlobal := zerolog.CallerSkipFrameCount
 	l := shared
 	if l == nil {
 		lg := buildLogger(c, out)
 		l = &lg
 	}
-	oldGlobal := zerolog.CallerSkipFrameCount
 	oldPkg := zlog.Logger
 	defer func() { zerolog.CallerSkipFrameCount = oldGlobal; zlog.Logger = oldPkg }()
 	zlog.Logger = *l
@@ -158,6 +162,12 @@ func run(c *Case, shared *zerolog.Logger, out *rw) string {
 	case "ctxcount":
 		// the per-logger count replaces the default 2: the hook reports j frames up, plus any
 		// CallerSkipFrame(j) the site itself adds
+		want = j
+		if si.UsesJ {
+			want = 2 * j
+		}
+	case "ctxcount=global":
+		zerolog.CallerSkipFrameCount = 2 + j + 1 // moved after the logger was built: the logger's own count stays
 		want = j
 		if si.UsesJ {
 			want = 2 * j
@@ -221,7 +231,7 @@ func mechsFor(si siteInfo) []string {
 	if si.Kind == "event" {
 		return []string{"event", "global", "event+ctx"}
 	}
-	return []string{"ctx", "ctxcount", "global", "ctx2"}
+	return []string{"ctx", "ctxcount", "global", "ctx2", "ctxcount=global"}
 }
 
 func TestExhaustiveProduct(t *testing.T) {
@@ -234,7 +244,7 @@ func TestExhaustiveProduct(t *testing.T) {
 	for id, si := range sites {
 		for _, mech := range mechsFor(si) {
 			for j := 0; j <= maxJ; j++ {
-				if mech == "ctxcount" || mech == "global" || si.UsesJ || j == 0 {
+				if mech == "ctxcount" || mech == "global" || mech == "ctxcount=global" || si.UsesJ || j == 0 {
 					for d := 0; d <= maxD; d++ {
 						if d > 1 && d < maxD && j == 0 {
 							continue
